@@ -262,6 +262,13 @@ class AbstractCodeGen(object):
                   ('egpNeighMode', [('RFC1213-MIB', 'egpNeighMode')]),
                   ('egpNeighEventTrigger', [('RFC1213-MIB', 'egpNeighEventTrigger')]),
                   ('egpAs', [('RFC1213-MIB', 'egpAs')]),
+                  ('at', [('RFC1213-MIB', 'at')]),
+                  ('atTable', [('RFC1213-MIB', 'atTable')]),
+                  ('atEntry', [('RFC1213-MIB', 'atEntry')]),
+                  ('atIfIndex', [('RFC1213-MIB', 'atIfIndex')]),
+                  ('atPhysAddress', [('RFC1213-MIB', 'atPhysAddress')]),
+                  ('atNetAddress', [('RFC1213-MIB', 'atNetAddress')]),
+                  ('egp', [('RFC1213-MIB', 'egp')]),
                   ('snmpEnableAuthTraps', [('SNMPv2-MIB', 'snmpEnableAuthenTraps')]))
         ),
         'RFC-1212': {'OBJECT-TYPE': [('SNMPv2-SMI', 'OBJECT-TYPE')]},
